@@ -72,10 +72,11 @@ def main():
         env2["PYUBX2_SRC"] = d + "/src"
         env2["VERIF_EVIDENCE_DIR"] = d + "/evidence"
         env2["VERIF_REPLAY_DIR"] = d + "/replays"
+        env2.setdefault("VERIF_SLOW_STOP_S", "180")  # a change that makes the library pathologically slow: stop once violations are established
         det = meta.get("detection", {})
         for c in checks:
             t = time.time()
-            rc, o, e = sh([PY, "-m", f"checks.{c.lower()}", "--tier", a.tier], ROOT, env2, timeout=7200)
+            rc, o, e = sh([PY, "-m", f"checks.{c.lower()}", "--tier", a.tier], ROOT, env2, timeout=2400)
             keys = [l.strip()[4:].split(" cases=")[0] for l in o.splitlines() if l.startswith("  key=")]
             if rc == 1 and "VIOLATION property=" not in o:
                 rc = 3  # the check crashed: not a detection
